@@ -447,7 +447,7 @@ def model_lines(case, tables, vt, picks):
         lines.append("g %s %s" % (k, val(k, v)))
     for me in methods:
         for suffix, v in case["global_meth"][me].items():
-            lines.append("gm %s %s" % (me + suffix, val(me + suffix, v)))
+            lines.append("gm %s %s %s" % (me, suffix, val(me + suffix, v)))
     types, sites, equipment, sources = (case.get(k) for k in ("types", "sites", "equipment", "sources"))
     lines.append("flags %d %d %d %d" % (1 if types else 0, 1 if "equipment" in sites["cols"] else 0,
                                         1 if (types and "equipment" in types["cols"]) else 0,
